@@ -975,6 +975,22 @@ func (e *Exec) checkAbandon(i int, s *Step, ts *treeState, seq SeqFn, full []pai
 	if !pairsEqual(again, full) {
 		return e.viol("wrong-result", "C14-reiterate", i, "tree %d (%s): ranging again over the same %s(%x,%x,n=%d) sequence yielded %d element(s); the first complete pass yielded %d", s.T, ts.cfg.Key, s.Op, []byte(s.K), []byte(s.K2), s.N, len(again), n)
 	}
+	// a fresh sequence value whose very FIRST pass is an abandoned one
+	if n >= 1 {
+		fresh := ts.api.Seq(s.Op, s.K, s.K2, kOf(s.N))
+		stopAt := 0
+		if n > 2 {
+			stopAt = (i + n) % (n - 1)
+		}
+		cnt := 0
+		fresh(func([]byte, uint64, bool) bool { cnt++; return cnt <= stopAt })
+		for pass := 0; pass < 2; pass++ {
+			if again := collectSeq(fresh); !pairsEqual(again, full) {
+				return e.viol("wrong-result", "C14-reiterate-after-abandoned-first-pass", i, "tree %d (%s): a fresh %s(%x,%x,n=%d) sequence was abandoned after %d element(s) on its first pass; complete pass %d over it then yielded %d element(s) %s, expected %d %s", s.T, ts.cfg.Key, s.Op, []byte(s.K), []byte(s.K2), s.N, stopAt+1, pass+1, len(again), fmtPairs(again, 5), n, fmtPairs(full, 5))
+			}
+		}
+		e.st.Probes["abandoned_first_pass"]++
+	}
 	// the same sequence value ranged over again while a pass over it is still in
 	// progress (a nested loop): both passes must deliver the full result
 	if n >= 2 {
